@@ -689,7 +689,7 @@ func drvGenHistory(r *Rng, kind string, nOps int, s *Stream) deriveHistory {
 		op := drvOp{Node: parent, New: len(nodes)}
 		if !forceAttrs && r.Chance(25) {
 			op.Op = "group"
-			op.Name = Pick(r, []string{"g", "grp", "a.b", "with space", "req", "ключ"})
+			op.Name = Pick(r, []string{"g", "grp", "a.b", "with space", "req", "res", "rex", "ключ"}) // (siblings of equal length on purpose)
 			if r.Chance(3) {
 				op.Name = ""
 			}
